@@ -37,7 +37,7 @@ fn child(args: &[String]) -> ! {
         .position(|a| a == "--dump")
         .map(|i| PathBuf::from(&args[i + 1]));
     vcommon::install_quiet_panic_hook();
-    let all = backends::bvs_format_once();
+    let all = backends::bvs_with_multi();
     // the front end runs once per process, like in the CLI
     let loaded = vcommon::catch(|| backends::load(&wit));
     if let Ok(Ok((resolve, world))) = &loaded {
@@ -374,7 +374,7 @@ fn main() {
             json!({"wit_path_in_repo": rel}),
         ));
     }
-    let bvs: Vec<Bv> = backends::bvs_format_once();
+    let bvs: Vec<Bv> = backends::bvs_with_multi();
     let all_labels = bvs.iter().map(|b| b.label()).collect::<Vec<_>>().join(",");
     let rot = (run.seed as usize) % worlds.len();
 
@@ -468,6 +468,9 @@ fn main() {
         let label = bvs[bi].label();
         let st = r["status0"].as_str().unwrap_or("");
         let e = per_bv.entry(label.clone()).or_insert((0, 0));
+        if st.starts_with("STATUS err option parse") || st.starts_with("STATUS err unknown backend") {
+            vcommon::machinery(&format!("{label} on {}: {st}", worlds[wi].0));
+        }
         if st != "STATUS ok" {
             *not_generated.entry(format!("{label}: {}", e7_gen::normalise_msg(&st.chars().take(90).collect::<String>()))).or_insert(0) += 1;
             continue;
@@ -531,6 +534,8 @@ fn main() {
         "composed_world_shape": "3 packages, 7 interfaces x (4 typedefs + 1 resource + 4-8 functions), 3 world-level typedefs, 6 world-level functions, 4 imports + 3 exports; 5 feature flavours",
         "corpus_entries": corpus.len(),
         "backend_variants": bvs.len(),
+        "configurations": bvs.iter().map(|b| json!({"label": b.label(), "args": b.args, "plus_world_derived_values_for_multi_valued_options": b.dynamic})).collect::<Vec<_>>(),
+        "multi_variants": "rust: 4 additional derives, 3 derive-ignore, 4 type attributes and 4 member attributes on each of <=3 types, 3 --with, 3 --skip, 3 --async directives, --type-section-suffix; c: 3 --rename, 3 --async directives, --type-section-suffix; cpp: 3 --with; go, moonbit: 3 --async directives; d: 3 --required-d-versions, --type-section-suffix (csharp and markdown have no list-valued options)",
         "pairs_compared_across_all_seeds": compared,
         "pairs_not_generated_at_seed0_skipped": not_generated,
         "per_backend_variant_compared_and_differing": per_bv.iter().map(|(k, v)| (k.clone(), json!({"compared": v.0, "differing": v.1}))).collect::<BTreeMap<_, _>>(),
